@@ -20,6 +20,11 @@ subprocess.run(["git", "-C", "/repo", "worktree", "add", "-q", wt, "HEAD"], chec
 try:
     r = subprocess.run(["git", "-C", wt, "apply", patch], capture_output=True, text=True)
     if r.returncode != 0:
+        # the tree moved on next to the patched lines (a later fix: commit): retry with fuzzy context matching
+        r = subprocess.run(["patch", "-p1", "-F3", "-s", "-i", patch], capture_output=True, text=True, cwd=wt)
+        if r.returncode == 0:
+            print("(applied with fuzz)")
+    if r.returncode != 0:
         print("PATCH DOES NOT APPLY:", r.stderr.strip()[:300]); sys.exit(3)
     for prop in props:
         for s in seeds:
